@@ -17,9 +17,9 @@ theorem ofSegs_append (a b : List Segment) : ofList (a.map ofSeg ++ b.map ofSeg)
   simp [ofSegs]
 
 @[simp] theorem getItem_ofSeg_0 (s : Segment) : getItem (ofSeg s) (.int 0) = .ok (.int s.offset) := by
-  simp [ofSeg, getItem, len, asList, getNat]
+  simp [ofSeg, getItem, getItemSeq, len, asList, getNat]
 @[simp] theorem getItem_ofSeg_1 (s : Segment) : getItem (ofSeg s) (.int 1) = .ok (.int (s.length : Int)) := by
-  simp [ofSeg, getItem, len, asList, getNat]
+  simp [ofSeg, getItem, getItemSeq, len, asList, getNat]
 
 def upd2 (s : SLoc) (seg wb : V) : SLoc := { s with segment := seg, _wb1 := wb }
 
@@ -41,7 +41,7 @@ theorem loop2_eq (l : List Segment) : ∀ (s : SLoc) (acc : List Segment) (st : 
         .ok (.next (upd2 s (ofSeg g') (ofSegs (acc ++ [g'])))) := by
       unfold Gen.C06F.slicers2segments_body2
       simp [h1, h2, h3, ofSegs, upd2, g']
-      simp [ofSeg, setItem, len, setNat]
+      simp [ofSeg, setItem, setItemSeq, len, setNat]
     obtain ⟨y, hy⟩ := ih (upd2 s (ofSeg g') (ofSegs (acc ++ [g']))) (acc ++ [g']) st i rfl h2 h3
     refine ⟨y, ?_⟩
     simp only [ofSegs, List.map_cons, ofList_cons, Gen.C06F.slicers2segments_loop2, bind, Except.bind, hb]
@@ -142,15 +142,15 @@ theorem sbody_int (s : SLoc) (full : List Nat) (k stride : Nat) (allFull : Bool)
   refine ⟨rfl, ?_, ?_, rfl, ?_, ?_⟩ <;> simp [segStep]
 
 @[simp] theorem getItem_ofSegs1 (g : Segment) : getItem (ofSegs [g]) (.int 0) = .ok (ofSeg g) := by
-  simp [ofSegs, getItem, len, asList, getNat]
+  simp [ofSegs, getItem, getItemSeq, len, asList, getNat]
 @[simp] theorem setItem_ofSegs1 (g : Segment) (v : V) : setItem (ofSegs [g]) (.int 0) v = .ok (.cons v .nil) := by
-  simp [ofSegs, setItem, len, setNat]
+  simp [ofSegs, setItem, setItemSeq, len, setNat]
 @[simp] theorem setItem_ofSeg_0 (g : Segment) (v : V) :
     setItem (ofSeg g) (.int 0) v = .ok (.cons v (.cons (.int (g.length : Int)) .nil)) := by
-  simp [ofSeg, setItem, len, setNat]
+  simp [ofSeg, setItem, setItemSeq, len, setNat]
 @[simp] theorem setItem_ofSeg_1 (g : Segment) (v : V) :
     setItem (ofSeg g) (.int 1) v = .ok (.cons (.int g.offset) (.cons v .nil)) := by
-  simp [ofSeg, setItem, len, setNat]
+  simp [ofSeg, setItem, setItemSeq, len, setNat]
 theorem ofSeg_mk (a : Int) (b : Nat) : V.cons (.int a) (.cons (.int (b : Int)) .nil) = ofSeg ⟨a, b⟩ := rfl
 theorem ofSegs_single (g : Segment) : V.cons (ofSeg g) .nil = ofSegs [g] := rfl
 
